@@ -419,46 +419,44 @@ def check_apply_always(ctx: Ctx, rule: str) -> None:
 def check_deliver_results(ctx: Ctx, rule: str) -> None:
     """progression.deliver_results and its call sites: the result a handler returned (no exception, not None) is written into the cycle's patch under
     status.<handler id> on every path, in every cycle kind that persists state (changing, watching, sub-handling, daemons, timers)."""
-    from ..rules import cond_implies
+    from .. import absint
     repo = ctx.repo
-    f, g = cfg_of(ctx, 'progression.deliver_results')
-    loops = [n for n in g.nodes if n.kind == 'loop' and isinstance(n.stmt, ast.For)]
+    f = repo.fn('progression.deliver_results')
+    ctx.analysed(f)
+    loops = [n for n in walk_no_defs(f.node) if isinstance(n, ast.For)]
     ctx.require_sites(rule, 'deliver_results: loop over the outcomes', len(loops), 1, f.loc())
-    pparam = 'patch'
-
-    def writes_patch(x: ast.AST) -> bool:
-        if isinstance(x, ast.Assign):
-            return any(pparam in {n.id for n in ast.walk(t) if isinstance(n, ast.Name)} for t in x.targets if isinstance(t, ast.Subscript))
-        if isinstance(x, ast.Call) and isinstance(x.func, ast.Attribute) and x.func.attr in ('update', '__setitem__'):
-            return pparam in {n.id for n in ast.walk(x.func.value) if isinstance(n, ast.Name)}
-        return False
-    W = g.stmt_nodes(writes_patch)
-    ctx.require_sites(rule, 'deliver_results: writes of a result into the patch (mapping results merged, other results stored)', len(W), 2, f.loc())
-
-    def assume(test, outcome):
-        def contradicts(e, o):
-            if isinstance(e, ast.Compare) and len(e.ops) == 1 and isinstance(e.comparators[0], ast.Constant) and e.comparators[0].value is None \
-                    and isinstance(e.left, ast.Attribute):
-                if e.left.attr == 'exception':   # assumption: exception is None
-                    return (isinstance(e.ops[0], ast.IsNot) and o is True) or (isinstance(e.ops[0], ast.Is) and o is False)
-                if e.left.attr == 'result':      # assumption: result is not None
-                    return (isinstance(e.ops[0], ast.Is) and o is True) or (isinstance(e.ops[0], ast.IsNot) and o is False)
-            return False
-        return False if cond_implies(test, outcome, contradicts) else None
     for lp in loops:
-        r = g.reach([lp], stop=lambda n: n in set(W), edge_ok=g.pruned(assume))
-        skipped = lp in r
-        ctx.ob(rule, 'deliver_results: an outcome with no exception and a non-None result is written into the patch on every path of the iteration', not skipped,
-               loc=f.loc(lp.stmt), construct=construct(f, 'table:result => status write'))
-    for w in W:
-        conds = dominating_conditions_of(g, w)
-        exc_ok = any(cond_implies(t, o, lambda e, oo: isinstance(e, ast.Compare) and isinstance(e.left, ast.Attribute) and e.left.attr == 'exception'
-                                  and ((isinstance(e.ops[0], ast.IsNot) and oo is False) or (isinstance(e.ops[0], ast.Is) and oo is True))) for t, o in conds)
-        keyed = any(isinstance(c, ast.Constant) and c.value == 'status' for c in ast.walk(w.stmt))
-        idvars = {n.id for lp in loops for n in ast.walk(lp.stmt.target) if isinstance(n, ast.Name)}
-        by_id = bool(idvars & {n.id for n in ast.walk(w.stmt) if isinstance(n, ast.Name)})
-        ctx.ob(rule, 'deliver_results: a result is written only for an outcome without exception, under status.<handler id>', exc_ok and keyed and by_id, loc=f.loc(w.stmt),
-               construct=construct(f, 'guard:status write only without exception'), detail=f'exception-guard={exc_ok} status-key={keyed} by-id={by_id}')
+        idvars = {n.id for n in ast.walk(lp.target) if isinstance(n, ast.Name)}
+
+        def effect(it, path, call, names):
+            # a call that mutates something reached from the patch: X.update(...), X.__setitem__(...)
+            if isinstance(call.func, ast.Attribute) and call.func.attr in ('update', '__setitem__'):
+                return 'write'
+            return None
+        paths = absint.analyse(repo, f, absint.Config(effect=effect), stmts=lp.body)
+        ctx.count('paths', len(paths))
+        n_written = 0
+        for p in paths:
+            exc_none = p.atoms.get('isnone(outcome.exception)')
+            res_none = p.atoms.get('isnone(outcome.result)')
+            for k, v in p.atoms.items():      # whatever the outcome variable is called
+                if k.startswith('isnone(') and k.endswith('.exception)'):
+                    exc_none = v
+                if k.startswith('isnone(') and k.endswith('.result)'):
+                    res_none = v
+            writes = [e for e in p.trace if e.label == 'write' or e.label.startswith('setitem:')]
+            deliverable = exc_none is True and res_none is False
+            if deliverable:
+                n_written += 1
+            ok = (len(writes) == 1) if deliverable else (not writes if (exc_none is False or res_none is True) else True)
+            via_patch = all('patch' in (e.label + ' ' + e.key) or any(x in p.env and 'patch' in getattr(p.env[x], 'key', '') for x in _names_of(e.node)) for e in writes)
+            by_id = all(bool(idvars & _names_of(e.node)) for e in writes)
+            status = all("'status'" in (e.label + ' ' + e.key) or any("'status'" in getattr(p.env.get(x), 'key', '') for x in _names_of(e.node)) for e in writes)
+            ctx.ob(rule, 'deliver_results, one outcome: a result is written into the patch under status.<handler id> exactly when the outcome has no exception and a '
+                         'non-None result (once; nothing is written for a failed handler or for None)', ok and via_patch and by_id and status, loc=f.loc(lp),
+                   construct=construct(f, 'table:result => one status write'),
+                   detail=f'exception is None={exc_none}, result is None={res_none}: {len(writes)} write(s) {[e.key[:50] for e in writes]} via_patch={via_patch} by_id={by_id} status={status}')
+        ctx.require_sites(rule, 'deliver_results: paths that deliver a result (mapping results merged, other results stored)', n_written, 2, f.loc())
     # call sites: after every execution of handlers in a persisting cycle the results are delivered from the same outcomes into the cycle's patch
     for ref, minimum in (('processing.process_changing_cause', 1), ('processing.process_watching_cause', 1), ('subhandling.execute', 1), ('daemons._daemon', 1), ('daemons._timer', 1)):
         cf, cg = cfg_of(ctx, ref)
@@ -483,6 +481,10 @@ def check_deliver_results(ctx: Ctx, rule: str) -> None:
                             srcs.add(st.targets[0].id)
                     ctx.ob(rule, f'{cf.name}: deliver_results receives the outcomes of that execution', o is not None and dotted(o) in srcs, loc=cf.loc(c),
                            construct=construct(cf, 'flow:deliver_results(outcomes=)'), detail=f'{norm(o, 30)} not in {sorted(srcs)}')
+
+
+def _names_of(node) -> set:
+    return {n.id for n in ast.walk(node) if isinstance(n, ast.Name)} if node is not None else set()
 
 
 def dominating_conditions_of(g, node) -> list:
